@@ -171,12 +171,13 @@ PENDING = {}
 # directed / enumerated families added while answering seeded changes and findings (DESIGN 9.4); appended to the level text
 EXTRA = {
     "C01": "call shapes incl. explicit None arguments; C04's two-base, gap and diamond matrices; a recursion matrix; adoption "
-           "histories (a function already called is adopted as the override of a DBC member).",
+           "histories (a function already called is adopted as the override of a DBC member); concurrent histories (callers in "
+           "copied contexts, tasks and threads).",
     "C02": "multi-base matrix, directed adoption histories; falsy and BaseException-only error objects; NotImplemented / "
-           "Ellipsis results.",
+           "Ellipsis results; async adapters carrying functools.wraps(sync function).",
     "C03": "constructor / invariant-order matrices, built-in bases, renamed members (aliases, lambdas, no-wraps decorators, "
            "also as __init__), undecorated middle classes, __setattr__ aliases, protected member names, nested contract-carrying "
-           "helpers that fail inside a constructor / method.",
+           "helpers that fail inside a constructor / method, a diamond invariant matrix.",
     "C04": "two-base / gap / diamond / invariant-order matrices, constructor cases, plain-attribute and meta-class-name cases, "
            "decorator objects shared by base and override.",
     "C05": "flavours def / async / method / inherited override, re-entry, self by keyword, explicit None arguments, "
@@ -185,32 +186,39 @@ EXTRA = {
     "C06": "directed conditions (all() examples beyond repr limits, non-bool all() elements, unknown keyword values for a "
            "tolerant callee), private-attribute value lines, values inside comprehensions that depend on loop variables hiding an "
            "argument (judged against the per-iteration values).",
-    "C07": "sixteen decorator layouts (incl. break before @ / before attribute dots, blanks after @, parenthesised "
+    "C07": "seventeen decorator layouts (incl. break before @ / before attribute dots, blanks after @, parenthesised "
            "decorator), re-written source files, scope cases (late-bound closure variables, private attributes), "
            "condition kinds (function / partial / callable instance / bound method), comments and string literals holding lone "
            "parentheses / # / @.",
     "C08": "capture flavours, odd snapshot names, post-hoc duplicates, captures that call their own callable.",
     "C09": "falsy invalid error values; falsy and BaseException-only valid error objects; bound-method factories for every "
-           "kind of owner (unreferenced, deleted, __slots__, class) after a garbage collection.",
+           "kind of owner (unreferenced, deleted, __slots__, class) after a garbage collection; callable exception instances.",
     "C10": "closures sharing a code object, nested constructors, calls refused by the checker itself, child interpreters "
-           "with -O / -OO (enabled=True contracts re-entering themselves).",
+           "with -O / -OO (enabled=True contracts re-entering themselves), classes without __init__ whose invariants / __repr__ "
+           "re-enter the object, overlapping non-nested calls in one context.",
     "C11": "interleaved coroutines in one context, context histories (copied contexts, failing constructor re-run), a fault "
-           "inside the awaited operation of a non-coroutine awaitable, real stack overflow at six stack alignments.",
+           "inside the awaited operation of a non-coroutine awaitable, real stack overflow at six stack alignments, every kind of "
+           "ending followed by probes in child interpreters (default / -O / -OO).",
     "C12": "threads switched inside invariants and argument reprs, constructor in flight, a sync method next to coroutine "
-           "methods, contexts copied mid-call, a postcondition that hinges on the identity of the value its own call captured.",
+           "methods, contexts copied mid-call, postconditions that hinge on the identity of the value their own call captured "
+           "(also for a function called without arguments).",
     "C13": "recursion pairs, signature pairs, colour triples (def / async def / async adapter), coroutine invariants, "
            "awaitable results.",
     "C14": "diamond and static-member class cases, colour cases, first parameter not called self, reserved names without "
-           "postconditions, odd objects (array-like defaults, foreign __new__ results, property docs).",
-    "C15": "re-entrant programs, descriptor objects, snapshot+ensure cells, colliding snapshot names across modes.",
+           "postconditions, odd objects (array-like defaults, foreign __new__ results, property docs, property sub-classes), "
+           "constructor shapes (4 x 4 x 0..2 arguments).",
+    "C15": "re-entrant programs, descriptor objects, snapshot+ensure cells, colliding snapshot names across modes, modules "
+           "without retrievable source in the three interpreter modes.",
     "C16": "classes re-created through the meta-class (dataclass(slots=True)); mixed plain / coroutine / awaitable conditions "
-           "within one stack of an async callable.",
+           "within one stack of an async callable; decorator objects shared by base and override (trace and error); contracts "
+           "attached after the class got its invariants.",
     "C17": "shared-object histories (dec / redec / cls / reuse / adopt / posthoc / partial / inv), reverse-order probing, "
            "shared-function cases (open finding D45), property-posthoc cases, late invariants, classes re-created and then "
            "decorated.",
     "C18": "async callables, invariant cells incl. extended / redefined properties, interpreter modes, no capture for a "
-           "rejected call.",
-    "C19": "falsy invalid errors, reserved keyword without **kwargs, reserved parameter on an override without contracts.",
+           "rejected call, distinct classes sharing a qualified name (announcements).",
+    "C19": "falsy invalid errors, reserved keyword without **kwargs, reserved parameter on an override without contracts, "
+           "reserved parameter with a failing precondition, coroutine callable objects as invariant conditions.",
     "C20": "maxlong and integers beyond it, Repr sub-classes, break-before-dot layout, closure and limits histories, every "
            "reprlib container kind around the default and own limits.",
 }
